@@ -181,3 +181,75 @@ Qed.
 Theorem reset_state_inv : forall ws : list Z, Forall (fun w => 0 <= w < 4294967296) ws ->
   Inv (reset_state (load_words WMap.zero 0 ws)) /\ abs (reset_state (load_words WMap.zero 0 ws)) = boot ws.
 Proof. intros ws F. split; [apply boot_inv; exact F | symmetry; apply boot_is_reset]. Qed.
+
+(* ------------------------------------------------------------------ the full-strength per-clock statement (without
+   read_safe) is FALSE: a READ whose result slot is the word holding its own SVC (known finding read-overwrites-own-svc).
+   State: pc = 1 in the word 32 D3 30 D3, areg = 2 (READ), mem[1] = 0xFFFFFFFF so that sp+1 wraps to word 0; input 'A'. *)
+Definition clock_refines_isa_full : Prop := forall s inp a' inp' ev,
+  Inv s -> step (abs s) inp = Ok (a', inp', ev) -> in_range (fetch (abs s)) a' ->
+  exists s', tb_step RtlHex.design s inp = (s', inp', ev) /\ abs s' = a'.
+
+Definition selfmod_state : rstate :=
+  {| r_pc := 1; r_areg := 2; r_breg := 0; r_oreg := 0; r_mem := wr (wr WMap.zero 0 3543192370) 1 4294967295 |}.
+Definition selfmod_input : inputs := {| console := [65]; files := fun _ => [] |}.
+
+Lemma selfmod_inv : Inv selfmod_state.
+Proof.
+  unfold Inv, wf, selfmod_state. cbn [r_pc r_areg r_breg r_oreg r_mem]. unfold M21, M32.
+  split; [|reflexivity]. split; [lia|]. split; [lia|]. split; [lia|]. split; [lia|].
+  apply rd_wr_range; [|lia | unfold M32; lia]. apply rd_wr_range; [|lia | unfold M32; lia].
+  intros a Ha. unfold WMap.zero. rewrite rd_empty. unfold M32. lia.
+Qed.
+
+Theorem clock_refines_isa_full_refuted : ~ clock_refines_isa_full.
+Proof.
+  intros F.
+  destruct (step (abs selfmod_state) selfmod_input) as [[[a' inp'] ev]|u] eqn:St; [|vm_compute in St; discriminate].
+  assert (Ha : areg a' = 2 /\ pc a' = 2).
+  { vm_compute in St. injection St as <- _ _. split; reflexivity. }
+  destruct Ha as [Ha Hp].
+  assert (R : in_range (fetch (abs selfmod_state)) a').
+  { unfold in_range. rewrite Hp. split; [lia|]. intros K. vm_compute in K. discriminate. }
+  destruct (F selfmod_state selfmod_input a' inp' ev selfmod_inv St R) as [s' [T A]].
+  apply (f_equal (fun x => r_areg (fst (fst x)))) in T. cbn [fst] in T.
+  apply (f_equal areg) in A. cbn [abs areg] in A. rewrite Ha in A. rewrite A in T.
+  vm_compute in T. discriminate.
+Qed.
+
+(* ------------------------------------------------------------------ without [Inv] (a low nibble left in oreg_q, which no run
+   from reset produces: reset_inv, ref_cycle_inv) the per-cycle statement is FALSE: the RTL decodes a prefixed OPR by the
+   operand nibble only.  State: oreg = 1, byte D2 (ISA operand 1|2 = 3 = SVC, here WRITE; RTL: nibble 2 = SUB). *)
+Definition cycle_refines_isa_all_states : Prop := forall s inp a' inp' ev,
+  wf s -> step (abs s) inp = Ok (a', inp', ev) -> in_range (fetch (abs s)) a' ->
+  abs (cycle RtlHex.design s) = (if is_read ev then with_mem a' (r_mem s) else a').
+
+Definition outside_inv_state : rstate :=
+  {| r_pc := 0; r_areg := 1; r_breg := 5; r_oreg := 1; r_mem := wr (wr WMap.zero 0 210) 1 10 |}.
+
+Theorem cycle_refines_isa_all_states_refuted : ~ cycle_refines_isa_all_states.
+Proof.
+  intros F.
+  assert (Wf : wf outside_inv_state).
+  { unfold wf, outside_inv_state. cbn [r_pc r_areg r_breg r_oreg r_mem]. unfold M21, M32.
+    split; [lia|]. split; [lia|]. split; [lia|]. split; [lia|].
+    apply rd_wr_range; [|lia | unfold M32; lia]. apply rd_wr_range; [|lia | unfold M32; lia].
+    intros a Ha. unfold WMap.zero. rewrite rd_empty. unfold M32. lia. }
+  destruct (step (abs outside_inv_state) selfmod_input) as [[[a' inp'] ev]|u] eqn:St; [|vm_compute in St; discriminate].
+  assert (Ha : areg a' = 1 /\ pc a' = 1 /\ is_read ev = false).
+  { vm_compute in St. injection St as <- _ <-. repeat split. }
+  destruct Ha as (Ha & Hp & He).
+  assert (R : in_range (fetch (abs outside_inv_state)) a').
+  { unfold in_range. rewrite Hp. split; [lia|]. intros K. vm_compute in K. discriminate. }
+  pose proof (F outside_inv_state selfmod_input a' inp' ev Wf St R) as A. rewrite He in A.
+  apply (f_equal areg) in A. rewrite Ha in A. vm_compute in A. discriminate.
+Qed.
+
+(* the property's range along a run, without the read_safe clause (for the full-strength statements) *)
+Fixpoint run_in_range (n : nat) (a : arch) (inp : inputs) : Prop :=
+  match n with
+  | O => True
+  | S m => match step a inp with
+           | Ok (a1, inp1, ev) => in_range (fetch a) a1 /\ run_in_range m a1 inp1
+           | Undefined _ => True
+           end
+  end.
